@@ -29,10 +29,14 @@ class ClassInfo:
         self.methods = {}
         self.assigns = {}
         self.decorators = {}
+        self.setters = {}          # property name -> FunctionDef decorated with @<name>.setter
         for st in node.body:
             if isinstance(st, (ast.FunctionDef,)):
                 decs = [ast.unparse(d) for d in st.decorator_list]
                 if "overload" in decs:
+                    continue
+                if any(d == st.name + ".setter" for d in decs):
+                    self.setters[st.name] = st
                     continue
                 self.methods[st.name] = st
                 self.decorators[st.name] = decs
